@@ -607,6 +607,19 @@ def m_strip(reg, eng, st, recv, args, kwargs, node, rexpr):
     raise OutOfSubset("str.strip")
 
 
+def m_rstrip(reg, eng, st, recv, args, kwargs, node, rexpr):
+    """s.rstrip(c) for ONE literal character c: the unique r with s == r + c*k (k >= 0) and r not ending in c. Anything else is refused."""
+    if len(args) != 1 or kwargs or recv.t[0] != "str" or args[0].t[0] != "str" or not z3.is_string_value(z3.simplify(args[0].x)) \
+            or len(z3.simplify(args[0].x).as_string()) != 1:
+        raise OutOfSubset("str.rstrip with anything but one literal character")
+    ch = z3.simplify(args[0].x)
+    # the result is a FUNCTION of the string (so specifications can name it: rstrip_char), characterised at each use
+    r = z3.Function("rstrip_char", z3.StringSort(), z3.StringSort(), z3.StringSort())(recv.x, ch)
+    t = z3.Const(fresh_name("stripped_tail"), z3.StringSort())
+    st.assume(z3.And(recv.x == z3.Concat(r, t), z3.InRe(t, z3.Star(z3.Re(ch))), z3.Not(z3.SuffixOf(ch, r))))
+    return [(st, vstr(r))]
+
+
 def m_split(reg, eng, st, recv, args, kwargs, node, rexpr):
     (sep,) = args
     return [(st, V(("seq", ("str",)), reg.split_fn(eng, st, recv, sep)))]
@@ -635,5 +648,5 @@ METHODS = {
     "emptyset": {"add": m_add, "update": m_update},
     "dict": {"items": m_items, "keys": m_keys, "values": m_values, "get": m_get},
     "str": {"append": m_append, "startswith": m_startswith, "endswith": m_endswith, "join": m_join, "split": m_split,
-            "replace": m_str_replace, "strip": m_strip},
+            "replace": m_str_replace, "strip": m_strip, "rstrip": m_rstrip},
 }
